@@ -84,7 +84,7 @@ def base_A():
     spacer = {'corr': 'REH', 'axial_positions': [0.12, 0.2, 0.28],
               'solidity': 0.3}
     fuel = {'clad_material': 'ht9_se2anl_425',
-            'gap_material': 'sodium_se2anl_425', 'gap_thickness': 0.0001,
+            'gap_material': 'sodium_se2anl_425', 'fcgap_thickness': 0.0001,   # legacy keyword of the gap
             'r_frac': [0.0, 0.33333, 0.66667], 'pu_frac': [0.2, 0.2, 0.2],
             'zr_frac': [0.1, 0.1, 0.1], 'porosity': [0.1, 0.1, 0.1]}
     d = S.design(3, pd=1.2, hd=30, ducts=1, oftf=0.06, clearance='mid',
@@ -445,6 +445,9 @@ def xrel_faults(e, ents, tkey):
         out += ['eq-radius', 'gt-radius']
     if tkey == 'Assembly/*/pin_pitch':
         out += ['fill-duct+']
+    if tkey in ('Assembly/*/FuelModel/gap_thickness', 'Assembly/*/FuelModel/fcgap_thickness',
+                'Assembly/*/PinModel/gap_thickness', 'Assembly/*/PinModel/fcgap_thickness'):
+        out += ['eq-bore', 'gt-bore']
     return out
 
 
@@ -485,6 +488,11 @@ def _xrel_value(e, ents, name):
         return repr(0.5 * (lo + hi))
     if name == 'beyond-core':
         return repr(1.5 * fnum(_get(ents, ('Core',), 'length')['v']))
+    if name in ('eq-bore', 'gt-bore'):
+        # fuel-clad gap as wide as / wider than the clad bore radius: no pellet left
+        q = p[:2]
+        bore = fnum(_get(ents, q, 'pin_diameter')['v']) / 2 - fnum(_get(ents, q, 'clad_thickness')['v'])
+        return repr(bore if name == 'eq-bore' else bore * 1.05)
     P = fnum(_get(ents, p, 'pin_pitch')['v'])
     D = fnum(_get(ents, p, 'pin_diameter')['v'])
     if name in ('eq-gap', 'gt-gap'):
@@ -1256,6 +1264,12 @@ def geometry_classes(text):
                 g = _fin(d.get(path + (sub,), {}).get('gap_thickness'))
                 if g is not None and g < 0:
                     cls.add('nonpositive-dimension')
+                # the gap the model uses: gap_thickness, else the legacy keyword fcgap_thickness;
+                # wider than the clad bore radius leaves a pellet of non-positive radius
+                g2 = _fin(d.get(path + (sub,), {}).get('fcgap_thickness'))
+                guse = g if (g is not None and g > 0) else g2
+                if None not in (guse, D, ct) and guse > D / 2 - ct + 1e-12 * abs(D):
+                    cls.add('nonpositive-dimension')
     if len(set(outer)) > 1:
         cls.add('unequal-outer-ducts')
     return cls
@@ -1620,6 +1634,82 @@ def run_valid(c):
     return r
 
 
+# ----------------------------------------------------------------------
+# part `regions`: every stack of one or two un-rodded axial regions over a grid of boundaries
+RGRID = (0.0, 0.1, 0.2, 0.24, 0.3, 0.4)      # core length 0.4 m
+
+
+def region_cases(tier):
+    ivs = [(a, b) for a in RGRID for b in RGRID]        # inverted and zero-height intervals included
+    out = [{'regions': 'stack', 'r1': list(i), 'r2': None} for i in ivs]
+    for i in ivs:
+        for j in ivs:
+            if i < j or (i == j and tier != 'quick'):
+                out.append({'regions': 'stack', 'r1': list(i), 'r2': list(j)})
+    return out
+
+
+def region_class(c):
+    """'valid' | invalid class | 'no-bundle' (un-rodded regions fill the core: no statement demands either
+    acceptance or refusal, only no unhandled exception)"""
+    regs = [tuple(c['r1'])] + ([tuple(c['r2'])] if c['r2'] else [])
+    if any(hi <= lo for lo, hi in regs):
+        return 'inverted-axial-region'
+    if len(regs) == 2 and min(regs[0][1], regs[1][1]) - max(regs[0][0], regs[1][0]) > 0:
+        return 'overlapping-axial-regions'
+    regs.sort()
+    free = []
+    z = 0.0
+    for lo, hi in regs:
+        if lo > z:
+            free.append((z, lo))
+        z = hi
+    if z < 0.4:
+        free.append((z, 0.4))
+    if len(free) == 0:
+        return 'no-bundle'
+    if len(free) > 1:
+        return 'two-bundles'
+    return 'valid'
+
+
+def run_regions(c):
+    r = new_result()
+    regs = {'ra': {'z_lo': c['r1'][0], 'z_hi': c['r1'][1], 'vf_coolant': 0.3}}
+    if c['r2']:
+        regs['rb'] = {'z_lo': c['r2'][0], 'z_hi': c['r2'][1], 'vf_coolant': 0.35}
+    d = S.design(2, oftf=0.06, regions=regs)
+    scn = S.single(d, 0.5, length=0.4, power={'rings': 2, 'nduct': 1, 'cells': [0.0, 0.2, 0.4], 'q': 3000.0,
+                                               'pins': 'tilt', 'axial': ['up', 'down']})
+    with S.Built(scn) as b:
+        with open(os.path.join(b.dir, 'power_0.csv')) as f:
+            files = {'power_0.csv': f.read()}
+        text = b.text
+    res = execute(text, files)
+    cls = region_class(c)
+    r['states'] = res['objs'] + res['steps']
+    r['transitions'] = res['steps']
+    r['traces'] = 1
+    r['nontrivial'] = True
+    out = {'accepted': 'accepted', 'rejected': 'rejected@' + res['phase'],
+           'late-exit': 'late-exit@' + res['phase']}.get(res['cls'], 'unexpected:%s' % res['kind'])
+    r['outcome'] = cls + ':' + out.split('@')[0]
+    sc = dict(c, rclass=cls)
+    if res['cls'] == 'unexpected':
+        r['violations'].append(violation(res['kind'], sc, 'axial regions %s %s (%s): %s in phase %s (%s)'
+                                         % (c['r1'], c['r2'], cls, out, res['phase'], res['msg']), out,
+                                         'rejected or accepted', None, res['site']))
+    elif cls == 'valid' and res['cls'] != 'accepted':
+        r['violations'].append(violation('valid-not-accepted', sc, 'valid axial regions %s %s: %s (%s)'
+                                         % (c['r1'], c['r2'], out, res['msg']), out, 'accepted', None,
+                                         res['site'] or ('SystemExit@' + res['phase'])))
+    elif cls in ('inverted-axial-region', 'overlapping-axial-regions', 'two-bundles') and res['cls'] != 'rejected':
+        r['violations'].append(violation('accepted-invalid' if res['cls'] == 'accepted' else 'late-exit-invalid', sc,
+                                         'axial regions %s %s are %s but the input was %s'
+                                         % (c['r1'], c['r2'], cls, out), out, 'rejected', None, 'class:' + cls))
+    return r
+
+
 CLASSES = ['pins-do-not-fit', 'wire-thicker-than-gap', 'clad-thicker-than-radius',
            'nonpositive-dimension', 'duct-not-smaller-than-pitch',
            'unequal-outer-ducts', 'overlapping-axial-regions',
@@ -1665,6 +1755,7 @@ def main(run):
                                         budget_s=budget, chunksize=8)
         cs = cs + cs2
     run.explore('valid', valid_cases(run.tier), run_valid, budget_s=budget)
+    run.explore('regions', region_cases(run.tier), run_regions, budget_s=budget, chunksize=8)
     # vacuity: every outcome class and every named class must have occurred
     seen = {}
     for r in results:
@@ -1689,8 +1780,9 @@ def main(run):
 
 def replay(body):
     c = body['scenario']
-    if 'valid' in c:
-        r = guarded(run_valid, c, 600)
+    if 'valid' in c or 'regions' in c:
+        c = {k: v for k, v in c.items() if k != 'rclass'}
+        r = guarded(run_regions if 'regions' in c else run_valid, c, 600)
         for v in r['violations']:
             print('VIOLATION property=C18 replay=(inline) kind=%s site=%s %s'
                   % (v['kind'], v.get('site'), v['what']))
